@@ -128,6 +128,19 @@ claim("C18", "E2",
       "DESIGN.md section 4.3")
 
 
+claim("C19", "E6",
+      "static analysis: census of narrowing sites named by MIR built with -C overflow-checks=on (IntToInt/FloatToInt casts, Assert(Overflow) on sub-64-bit integers, saturating ot_round / F2Dot14 / Fixed conversions) over the call-graph reach of every job, with an audited range table",
+      "Static decision of where a value can wrap, saturate or make debug and release builds disagree in the value path (fontbe/fontir/fontdrasil "
+      "functions reachable from a job), and that each such place is bounded (recorded range argument), guarded, or a listed finding; a new "
+      "unguarded narrowing is a violation. Boundary values and the two build profiles are exactly what tests do not sample: the suite runs "
+      "unoptimised, where a wrapped value panics, while the shipped profile wraps silently. The 30 listed KNOWN findings are the unguarded "
+      "saturating conversions of source-provided values (the reproduced advance 70000 -> 65535 family); the PaintColrLayers u8 wrap was repaired. "
+      "NOT decided: conversions inside external crates (glyf coordinate rounding in write-fonts), shape preservation of fallbacks.",
+      "Trusted: rustc MIR with overflow checks on; tables/e6_narrowing.json (verdict + reason per site group, keyed by function, kind and types "
+      "with multiplicity); float `as` casts and write-fonts OtRound saturate. Findings are suppressed by exact key only.",
+      "DESIGN.md section 5.4")
+
+
 def main():
     commits = []
     try:
@@ -153,6 +166,7 @@ def main():
             {"name": "E1", "path": "rules/e1.py", "serves_properties": ["C02", "C01"], "kind_free_text": "job effects + forced happens-before (static analysis over MIR facts)"},
             {"name": "E2", "path": "rules/e2.py", "serves_properties": ["C01", "C18"], "kind_free_text": "hash-order taint analysis + nondeterminism who-may-call rules"},
             {"name": "E3", "path": "rules/e3.py", "serves_properties": ["C05", "C15"], "kind_free_text": "error discipline: type-resolved discard census"},
+            {"name": "E6", "path": "rules/e6.py", "serves_properties": ["C19"], "kind_free_text": "narrowing census over the value path"},
             {"name": "E4", "path": "rules/e4.py", "serves_properties": ["C15", "C13"], "kind_free_text": "crash containment, recursion census with guard re-checks, include guard, unsafe census"},
             {"name": "E5", "path": "rules/e5.py", "serves_properties": ["C05", "C13", "C14", "C20"], "kind_free_text": "sibling agreement and layering rules (table assembly, file names, pipeline dominator, cursor ownership)"},
         ],
